@@ -7,10 +7,12 @@ import (
 	"os"
 
 	"verifharness/internal/core"
+	"verifharness/props/c01"
 	"verifharness/props/c05"
 )
 
 var props = map[string]func(*core.Ctx) int{
+	"C01": c01.Run,
 	"C05": c05.Run,
 }
 
